@@ -10,8 +10,10 @@ package reader
 // cstart/csize: the chunk table of a file as uninterpreted functions of the position asked for.
 //@ uf cstart(metadata.File, int) int
 //@ uf csize(metadata.File, int) int
+//@ uf cok(metadata.File, int) bool
 //@ func interface metadata.File.ChunkEntryForOffset
 //@   ensures ok ==> off == cstart(self, offset) && size == csize(self, offset)
+//@   ensures ok == cok(self, offset)
 // well-formed chunk table (C02 only): the reported chunk contains the position, sizes are sane, and the chunk reported
 // for the end of a chunk starts exactly there (chunks are contiguous and do not overlap)
 //@ axiom[C02] forall f metadata.File, x int :: x >= 0 ==> 0 <= cstart(f, x) && cstart(f, x) <= x && x < cstart(f, x) + csize(f, x) && csize(f, x) <= 1<<40
@@ -61,3 +63,25 @@ package reader
 //@   loop 0 invariant[C02] nr == 0 || nr == len(p) || cstart(sf.fr, offset + nr) == offset + nr
 //@   ensures[C02,C04] err == nil ==> 0 <= result0 && result0 <= len(p)
 //@   ensures[C02,C04] err != nil ==> result0 == 0
+
+// ---- C15 ----
+//@ func (vr *VerifiableReader) Metadata
+//@   props C15
+//@   requires vr.r != nil
+//@   modifies nothing
+//@   ensures[C15] result == vr.r.r
+
+// Cache walk (prefetch and background fetch): for a regular file that passes the filter, one caching task is spawned
+// per chunk, chunk after chunk from offset 0, until the file size is reached or the chunk table has no entry for the
+// position; no file is skipped because part of it is cached already (each task checks its own chunk).
+//@ ghost spawned int
+//@ func (g *golang.org/x/sync/errgroup.Group) Go
+//@   trusted
+//@   modifies spawned
+//@   ensures spawned == old(spawned) + 1
+//@ func (vr *VerifiableReader) cacheWithReader$1
+//@   props C15
+//@   arith math
+//@   requires vr != nil && r != nil && eg != nil && sem != nil && filter != nil
+//@   loop 0 step[C15] spawned == prev(spawned) + 1 && cok(fr, prev(nr)) && nr == prev(nr) + csize(fr, prev(nr))
+//@   ensures[C15] result && fr != nil ==> nr >= e.Size || !cok(fr, nr)
